@@ -107,6 +107,64 @@ Proof.
   eexists. split; [vm_compute; reflexivity|]. repeat split; vm_compute; reflexivity.
 Qed.
 
+(* ---- the chosen metric (round 3, follow-up) ------------------------------------------------------ *)
+(* _NearestGridAssigner.predict sees positions only through self.metric: [predict_rows ng rows sw] is
+   the same loop fed with the metric's own rows, rows[i][k] = metric(descriptor i, grid point k), for
+   an ARBITRARY metric (Model/SparseKDEM.v). *)
+From Verif Require Import SparseKDEM SparseKDEMP.
+
+(* each descriptor is labelled with a grid point of minimal distance UNDER THE CHOSEN METRIC, the first
+   such index on ties *)
+Theorem C17_assignment_nearest_metric :
+  forall ng rows sw s, predict_rows ng rows sw = Some s -> rows_ok ng rows ->
+    length (labels s) = length rows /\
+    forall i, (i < length rows)%nat ->
+      let j := nth i (labels s) O in
+      let r := nth i rows [] in
+      (j < ng)%nat /\
+      (forall k, (k < ng)%nat -> nth j r 0 <= nth k r 0) /\
+      (forall k, (k < j)%nat -> nth j r 0 < nth k r 0).
+Proof. exact assignment_nearest_metric. Qed.
+Print Assumptions C17_assignment_nearest_metric.
+
+(* member lists = label classes, a partition of the descriptors; counts; grid weights = sums of the
+   assigned weights, totalling the descriptor weights - whatever the metric *)
+Theorem C17_weights_partition_metric :
+  forall ng rows sw s, predict_rows ng rows sw = Some s -> rows_ok ng rows -> length sw = length rows ->
+    length (members s) = ng /\ length (gweight s) = ng /\ length (npoints s) = ng /\
+    (forall j, (j < ng)%nat ->
+       nth j (members s) [] = members_of (labels s) j /\
+       nth j (npoints s) 0 = Z.of_nat (length (nth j (members s) [])) /\
+       (nth j (gweight s) 0 == qsum (map (fun i => nth i sw 0%Q) (nth j (members s) [])))%Q) /\
+    (forall i, (i < length rows)%nat ->
+       exists j, (j < ng)%nat /\ In i (nth j (members s) []) /\
+                 forall j', (j' < ng)%nat -> In i (nth j' (members s) []) -> j' = j) /\
+    Permutation (concat (members s)) (seq 0 (length rows)) /\
+    (qsum (gweight s) == qsum sw)%Q.
+Proof. exact weights_partition_metric. Qed.
+Print Assumptions C17_weights_partition_metric.
+
+(* the default metric is the instance: rows of the (periodic) squared Euclidean distance *)
+Theorem C17_default_metric_instance :
+  forall cell G D sw,
+    predict cell G D sw = predict_rows (length G) (map (drow cell G) D) sw /\
+    rows_ok (length G) (map (drow cell G) D).
+Proof. exact predict_is_predict_rows. Qed.
+Print Assumptions C17_default_metric_instance.
+
+(* non-vacuity: the rows decide, not positions.  Two grid points, three descriptors with metric rows
+   [7; 3], [2; 2] (a tie: first index), [5; 9] and weights 1, 1, 2: labels [1; 0; 0], member lists
+   [[1; 2]; [0]], grid weights 3/4 and 1/4 *)
+Example C17_nonvacuous_metric :
+  exists s, assign_rows 2 [[7; 3]; [2; 2]; [5; 9]] (Some [1#1; 1#1; 2#1]%Q) = Some s /\
+    rows_ok 2 [[7; 3]; [2; 2]; [5; 9]] /\
+    labels s = [1; 0; 0]%nat /\ members s = [[1; 2]; [0]]%nat /\ npoints s = [2; 1] /\
+    ql_eqb (gweight s) [3#4; 1#4]%Q = true.
+Proof.
+  eexists. split; [vm_compute; reflexivity|]. split; [repeat constructor|].
+  repeat split; vm_compute; reflexivity.
+Qed.
+
 (* ================================================================================================ *)
 (* The numerical part (Model/SparseKDEA.v, proofs in Proofs/SparseKDEAP.v).  The routines are         *)
 (* written once over a record of scalar operations; [rops fexp flog frnd] interprets them over an     *)
